@@ -204,6 +204,13 @@ def havPointAtRatioCalc (p1 p2 : P2 α) (f : α) : P2 α :=
   let z := a * r + b * s
   (T.toDeg (T.atan2 y x), T.toDeg (T.atan2 z (T.hypot x y)))
 
+/-- the computed part of `HaversineMeasure::point_at_ratio_between` (after the `start == end`, `ratio == 0`, `ratio == 1`
+shortcuts of `pointAtRatioSC`), with the guard of the `fix:` for points an ulp apart: `d == 0` (the difference is lost in
+`to_radians`) returns `start` instead of evaluating `sin(r·d) / sin(d) = 0 / 0` -/
+def havPointAtRatioGuarded (p1 p2 : P2 α) (f : α) : P2 α :=
+  let d := havFillD T p1 p2
+  if !(T.lt d 0) && !(T.lt 0 d) then p1 else havPointAtRatioCalc T p1 p2 f
+
 /-! #### Rhumb (rhumb/mod.rs, metric_spaces/rhumb.rs) -/
 
 /-- antimeridian wrapping in `RhumbCalculations::new`: two *sequential* `if`s -/
